@@ -14,8 +14,8 @@ TRUST = ("Trusted base: the Go type checker, golang.org/x/tools v0.29.0 go/packa
 P = {
  "C01": ("proof", "path-condition implication (truth table) + call-graph layering + slice provenance on go/ssa",
          "All-paths safety: deletes are issued only for nodes the reapers appended under taint-time-readable ∧ ((age>soft ∧ empty) ∨ age>hard) / force ∧ empty, from the classifier's tainted lists, reading only the node's own stored taint time.", "§4 C01"),
- "C02": ("proof", "path-condition implication at every action-reaching call + must-pass-through on the CFG + boolean field post-state analysis of the lock methods",
-         "No action-reaching call in the scan body runs unless a locked() test on the group's lock was false on that path; the lock is armed exactly after a successful cloud increase; locked() ⇒ elapsed < cool-down.", "§4 C02"),
+ "C02": ("proof", "path-condition implication at every action-reaching call + must-pass-through on the CFG + boolean field post-state analysis of the lock methods + CFG reachability from lock-arming calls to action-reaching calls (armed last)",
+         "No action-reaching call in the scan body runs unless a locked() test on the group's lock was false on that path; the lock is armed exactly after a successful cloud increase and nothing acts on the group after the arming call in the same scan; locked() ⇒ elapsed < cool-down.", "§4 C02"),
  "C03": ("proof", "linear-fact entailment (case-split Fourier–Motzkin over path conditions) + bounded-accumulator loop recogniser + provenance",
          "Per scan: successful taint writes ≤ max(0, |untainted| − min_nodes), only on members of the untainted list, none when below the minimum.", "§4 C03"),
  "C04": ("proof", "linear-fact entailment through the inlined clamp helper at the single resize site",
@@ -40,12 +40,12 @@ P = {
          "The accept set entails every stated invariant; validation gates every configuration with a fatal exit; json tags = documented keys (one recorded finding: scale_up_cool_down_timeout has no field).", "§4 C16"),
  "C17": ("other", "linear-fact entailment before every write-reaching call + struct-literal field provenance + head/tail chunking-loop recogniser",
          "No AWS write before δ ≥ 1 ∧ TargetSize+δ ≤ MaxSize; one absolute SetDesiredCapacity(TargetSize+δ); fleet request total = min = δ; every acquired id is attached in exactly one call of ≤ 20 ids.", "§4 C17"),
- "C18": ("other", "must-call-before-error-exit on the CFG with the argument checked against the chunking invariant + index-stepping loop recogniser with per-iteration accumulator + error-propagation chain",
-         "Every error exit of the attach step terminates exactly the not-yet-attached ids, the success exit none; terminate calls carry ≤ 1000 ids of the current batch; the failure reaches ScaleUp, which then takes no lock.", "§4 C18"),
+ "C18": ("other", "must-call-before-error-exit on the CFG with the argument checked against the chunking invariant + index-stepping loop recogniser with per-iteration accumulator + error-propagation chain + CFG reachability from may-exit calls to attach / terminate calls",
+         "Every error exit of the attach step terminates exactly the not-yet-attached ids, the success exit none; terminate calls carry ≤ 1000 ids of the current batch; the failure reaches ScaleUp, which then takes no lock; no process exit precedes a pending attach / terminate.", "§4 C18"),
  "C19": ("other", "linear pre-check entailment + existential-search recognisers + dominance (cloud before Kubernetes) + type-preserving error propagation per frame",
          "Terminate only after both minimum pre-checks and the membership test of that node, the matched instance with decrement; not-in-group is returned unchanged by every frame up to log.Fatal.", "§4 C19"),
- "C20": ("other", "panic-site census over the RunOnce-reachable call graph (index/slice bounds by linear entailment, optional-value dereferences by path-condition implication or a reviewed table) + stop census + loop-shape census",
-         "Every potentially panicking operation on scan paths is guarded or reviewed; the ways a scan can stop the process are enumerated (three recorded findings); every loop is structurally bounded. Liveness inside client-go / the AWS SDK is not decided.", "§4 C20"),
+ "C20": ("other", "panic-site census over the RunOnce-reachable call graph (index/slice bounds by linear entailment, optional-value dereferences by path-condition implication or a reviewed table) + stop census + loop-shape census + allocation-size bounds (Fourier–Motzkin projection onto held quantities, lifted through caller frames) + library-precondition table (metric label arity, Counter.Add sign, ticker interval, mutex pairing)",
+         "Every potentially panicking operation on scan paths is guarded or reviewed; the ways a scan can stop the process are enumerated (three recorded findings); every loop is structurally bounded; make() sizes are non-negative and bounded by held quantities; library preconditions hold at every call site. Liveness inside client-go / the AWS SDK is not decided.", "§4 C20"),
  "C09": ("proof", "path-condition implication + interprocedural provenance of action arguments",
          "No action site can receive a node that was cordoned in the scan's snapshot, and capacity/counts come from the untainted list only.", "§4 C09"),
  "C10": ("proof", "path-condition implication + loop-shape recogniser + who-may-call",
